@@ -8,10 +8,10 @@ import msuite
 from common import rng_for
 
 PID = 'C15'
-TAGS = ['log', 'now', 'ret', 'caught']
+TAGS = ['log', 'now', 'ret', 'caught', 'rootexc']
 RULE = ('runs with 1-4 root activities (each starting with a log), some returning values (incl. falsy 0), some raising, some '
         'blocking for ever; nested `usim.run()` calls from inside activities with clock probes before/after; different start '
-        'times; every fifth run is started with till=T; every scenario is a separate run() on the same thread (successful and failing runs alternate); thorough tier: '
+        'times; every fifth run is started with till=T; every fifth program lets a failure escape through 2-4 nested scopes / child tasks of a root activity without a handler; every scenario is a separate run() on the same thread (successful and failing runs alternate); thorough tier: '
         '8 scenarios at a time are additionally run concurrently in 8 real threads, and 4 at a time in threads that hand control to a seeded random other thread at every event (forced interleavings of runs and nested runs), and each trace must equal its sequential '
         'trace; non-trivial = a nested run, a returned value or an escaping exception')
 
@@ -30,6 +30,34 @@ def scenario(rng):
         if r[-1][0] == 'ret':
             r[-1][1] = rng.choice([0, 0, 1, 5])
     return sc
+
+
+def nested_failure(rng):
+    """a failure deep inside nested scopes / child tasks of a root activity, with no handler on the way: what escapes the
+    root activity (a `Concurrent` of `Concurrent`s, several levels deep, or a privileged exception passed through) is what
+    run() has to raise - the same object, not a rebuilt or flattened one"""
+    names = iter(range(100))
+    tasks = iter(range(100))
+
+    def level(depth):
+        sc = next(names)
+        body = []
+        n = rng.randint(1, 2)
+        for k in range(n):
+            t = next(tasks)
+            if depth > 0 and (k == 0 or rng.random() < 0.4):
+                prog = [['sleep', rng.choice([0, F(1, 2), 1])]] + level(depth - 1)
+            elif rng.random() < 0.7:
+                prog = [['sleep', rng.choice([F(1, 2), 1, 2])], ['raise', rng.choice([0, 1, 2, 3, 4])]]
+            else:
+                prog = [['sleep', rng.choice([1, 3])], ['log', 50 + t]]
+            body.append(['spawn', sc, t, None, None, rng.random() < 0.15, ['prog'] + prog])
+        body.append(['sleep', rng.choice([1, 2, 5])])
+        return [['scope', sc, ['none']] + body]
+    roots = [['prog', ['log', 9000]] + level(rng.randint(1, 3)) + [['log', 1]]]
+    for i in range(rng.randint(0, 2)):
+        roots.append(['prog', ['log', 9001 + i], ['sleep', rng.choice([1, 2, 4])], ['log', 2 + i]])
+    return ['scenario', ['debug', 1], ['start', rng.choice([0, 0, 1])], ['flags', 1], ['locks', 0], ['roots'] + roots]
 
 
 def till_scenario(rng):
@@ -127,7 +155,8 @@ def run(tier, seed, drv, scenarios=None):
     st = msuite.Suite(PID, drv, 'C15', TAGS)
     st.res.rule = RULE
     n = 200 if tier == 'quick' else 5000
-    scs = scenarios if scenarios is not None else [(till_scenario if i % 5 == 4 else scenario)(rng_for(seed, PID, i)) for i in range(n)]
+    scs = scenarios if scenarios is not None else [(till_scenario if i % 5 == 4 else nested_failure if i % 5 == 3 else scenario)(rng_for(seed, PID, i))
+                                                   for i in range(n)]
     traces = []
     for sc in scs:
         st.judge_params = start_of(sc)
